@@ -682,6 +682,21 @@ fn case_codec(ctx: &mut Ctx, sch: &Sch, sub: u64) {
             ctx.report.count("checked:compact-doc-node-data");
         }
     }
+    // a top-level pre-tokenized text: what `add_pre_tokenized_text` puts into node_data (its JSON)
+    for (f, v) in gd.added.iter() {
+        if let OwnedValue::PreTokStr(p) = v {
+            let mut d1 = TantivyDocument::default();
+            d1.add_pre_tokenized_text(*f, p.clone());
+            let mut cv = String::new();
+            canon_value(v, &mut cv);
+            let m = ctx.model.ask(&format!("C09 cdoc {cv}"));
+            if m.split('|').next() != Some(hex(&d1.node_data).as_str()) {
+                ctx.report.violation("model", "C09:compact-doc-bytes", format!("node_data of a document holding the pre-tokenized text {} differs from the model's", clip(&cv)), case.clone());
+            }
+            ctx.report.count("checked:compact-doc-pretok");
+            break;
+        }
+    }
     if ctx.report.samples.len() < 2 && nested {
         ctx.report.sample(json!({"kind":"codec","stored_view": clip(&expected), "bytes": bytes.len()}));
     }
@@ -2878,16 +2893,16 @@ fn plan(seed: u64, thorough: bool) -> Vec<(&'static str, Vec<(&'static str, u64)
         ("fixed", fixed),
         ("thresholds", thr),
         ("thridx", vec![("thridx", 0)]),
-        ("codec", subs("codec", b(700, 5000)).into_iter().map(|s| ("codec", s)).collect()),
-        ("store", subs("store", b(320, 2500)).into_iter().map(|s| ("store", s)).collect()),
-        ("stack", subs("stack", b(80, 600)).into_iter().map(|s| ("stack", s)).collect()),
-        ("index", subs("index", b(70, 520)).into_iter().map(|s| ("index", s)).collect()),
-        ("index2", subs("index2", b(12, 120)).into_iter().map(|s| ("index2", s)).collect()),
-        ("filtered", subs("filtered", b(45, 380)).into_iter().map(|s| ("filtered", s)).collect()),
+        ("codec", subs("codec", b(700, 4000)).into_iter().map(|s| ("codec", s)).collect()),
+        ("store", subs("store", b(320, 2000)).into_iter().map(|s| ("store", s)).collect()),
+        ("stack", subs("stack", b(80, 450)).into_iter().map(|s| ("stack", s)).collect()),
+        ("index", subs("index", b(70, 400)).into_iter().map(|s| ("index", s)).collect()),
+        ("index2", subs("index2", b(12, 90)).into_iter().map(|s| ("index2", s)).collect()),
+        ("filtered", subs("filtered", b(45, 300)).into_iter().map(|s| ("filtered", s)).collect()),
         ("v1", subs("v1", b(6, 40)).into_iter().map(|s| ("v1", s)).collect()),
-        ("jsondoc", subs("jsondoc", b(60, 600)).into_iter().map(|s| ("jsondoc", s)).collect()),
-        ("mixed", subs("mixed", b(40, 300)).into_iter().map(|s| ("mixed", s)).collect()),
-        ("codecswitch", subs("codecswitch", b(30, 200)).into_iter().map(|s| ("codecswitch", s)).collect()),
+        ("jsondoc", subs("jsondoc", b(60, 450)).into_iter().map(|s| ("jsondoc", s)).collect()),
+        ("mixed", subs("mixed", b(40, 220)).into_iter().map(|s| ("mixed", s)).collect()),
+        ("codecswitch", subs("codecswitch", b(30, 150)).into_iter().map(|s| ("codecswitch", s)).collect()),
     ]
 }
 
